@@ -498,6 +498,7 @@ def units(tier, seed):
         for i in range(len(TYPES)):
             us.append({"kind": "accept4", "first": i})
     us.append({"kind": "accept-web"})
+    us.append({"kind": "accept-dup"})
     us.append({"kind": "accept-misc"})
     return us
 
@@ -599,6 +600,24 @@ def run_unit(unit, ctx):
                 ctx.count("transitions")
                 for sig, msg in fails[:1]:
                     ctx.violation("C18/" + sig, msg, {"kind": "accept-web", "header": header})
+    elif k == "accept-dup":
+        # a media type may be listed more than once (two joined field lines, a synonym next to its canonical name): its weight
+        # is the highest one given
+        qs3 = (None, "0.3", "0.8")
+        for t1 in TYPES:
+            for t2 in TYPES:
+                if t1 == t2:
+                    continue
+                for q1, q2, q3 in it.product(qs3, repeat=3):
+                    for combo in (((t1, q1), (t2, q2), (t1, q3)), ((t1, q1), (t1, q3), (t2, q2)), ((t2, q2), (t1, q1), (t1, q3))):
+                        fails, header = check_header(combo, ("", "", ""))
+                        ctx.count("headers")
+                        ctx.count("headers_with_a_repeated_media_type")
+                        ctx.count("evaluations")
+                        if fails:
+                            ctx.violation("C18/" + fails[0][0].replace("accept/", "accept/repeated-media-type/"), fails[0][1], {"kind": "accept-dup", "elements": [list(e) for e in combo], "ows": ["", "", ""]})
+                        else:
+                            ctx.count("validated")
     elif k == "accept-misc":
         from curies.mapping_service.utils import handle_header
 
@@ -628,6 +647,9 @@ def replay(case):
     elif k == "kwargs":
         _SERVICES.pop(case["conv"], None)
         f = check_query_kwargs(case["conv"])
+    elif k == "accept-dup":
+        f, _ = check_header(tuple(tuple(e) for e in case["elements"]), tuple(case["ows"]))
+        f = [(s_.replace("accept/", "accept/repeated-media-type/"), m_) for s_, m_ in f]
     elif k == "accept-web":
         f = check_header_via_web(case["header"])
     else:
